@@ -1,7 +1,7 @@
 (* Props/C05.v — property C05: streaming mode agrees with whole-circuit mode.
    Only statements closed by [exact], each followed by Print Assumptions. *)
 From Coq Require Import NArith ZArith List Bool FMapPositive.
-From Mpc Require Import Gen.Consts Base.Label Circuit.Circuit Circuit.Garble Circuit.GarbleProof Lang.Gc Lang.GcProof Lang.Hashtab Lang.HashtabProof Proto.Stream Proto.StreamProof Proto.StreamGcProof Proto.StreamSimProof.
+From Mpc Require Import Gen.Consts Base.Label Circuit.Circuit Circuit.Garble Circuit.GarbleProof Lang.Gc Lang.GcProof Lang.Hashtab Lang.HashtabProof Proto.Stream Proto.StreamProof Proto.StreamGcProof Proto.StreamSimProof Proto.StreamCircProof.
 Import ListNotations.
 From Mpc Require Gen.State Base.StateExpected Base.StateCheck Base.StatePkgs.
 Local Open Scope nat_scope.
@@ -99,10 +99,13 @@ Print Assumptions C05_gc_now_is_fixed.
 (* GC SOUNDNESS (FULL, about Program.GC and WireAllocator as they are now).
    For every program description p and every step list that is well-formed
    (wf_prog: single static assignment with definition before use, last step
-   ret, no native-circuit instruction, distinct keys for arguments / {zero} /
-   {one} / table constants, constant and value keys disjoint, argument operands
-   as wide as the argument, slices fill their result, step circuits well-formed
-   and as wide as their operands and result — evaluated on every generated
+   ret, distinct keys for arguments / {zero} / {one} / table constants, constant
+   and value keys disjoint, argument operands as wide as the argument, slices
+   fill their result, step circuits well-formed and as wide as their operands
+   and result; a native-circuit instruction (case Circ of the streamer) has a
+   well-formed circuit with one input per operand — of ANY width: narrower or
+   wider operands are padded with the zero wire / truncated in place — and
+   outputs exactly as wide as its result values — evaluated on every generated
    program of every check run: always true): executing the step list that
    Program.GC returns through the wire allocator (AssignedIDs, free lists,
    GCWires, the in-place rewiring of alias results) never makes a circuit step
@@ -142,30 +145,55 @@ Theorem C05_ssa_ignores_gc :
 Proof. exact ssa_ignores_gc. Qed.
 Print Assumptions C05_ssa_ignores_gc.
 
+(* Circuit.Compute does not depend on input wires no gate reads.  For every
+   circuit whose output wires are not input wires and every two input vectors
+   of one length that agree on every input wire which is an operand of some
+   gate: the same outputs.  (What makes the unread offset operand of index
+   harmless: its wires may carry anything.) *)
+Theorem C05_eval_ignores_unread_inputs :
+  forall (c : circuit) (x x' : list bool),
+    length x = length x' -> ninputs c + noutputs c <= nwires c ->
+    (forall k, k < ninputs c -> wire_read c k = true -> nth k x false = nth k x' false) ->
+    eval_plain c x = eval_plain c x'.
+Proof. exact eval_plain_unread. Qed.
+Print Assumptions C05_eval_ignores_unread_inputs.
+
+(* consts_read_tabled (the hypothesis below) is weaker than "every constant
+   operand in a value position is in prog.Constants" *)
+Theorem C05_consts_tabled_read :
+  forall (p : sprog) (steps : list instr), consts_tabled p steps = true -> consts_read_tabled p steps = true.
+Proof. exact consts_tabled_read. Qed.
+Print Assumptions C05_consts_tabled_read.
+
 (* STREAMING = WHOLE CIRCUIT (FULL).  For every program description p, every
-   step list that is well-formed (wf_prog), whose constant operands in value
-   positions are constants of prog.Constants (consts_tabled) and whose ret
+   step list that is well-formed (wf_prog — native-circuit instructions
+   included), in which every constant operand in a value position is a constant
+   of prog.Constants or an operand of a builder step whose circuit has no gate
+   reading that operand's input wires (consts_read_tabled) and whose ret
    instruction returns as many bits as prog.Outputs declares (outbits_ok), and
    for every pair of inputs xy: executing the list Program.GC returns in
    streaming mode — wire ids handed out by the WireAllocator, recycled through
    the free lists after gc instructions, alias results rewired in place,
    circuits walked gate by gate on the persistent store through the in/out/tmp
-   indirection — returns exactly the bits that evaluating the original step
-   list with separate storage for every value returns (ssa_eval: the reading of
+   indirection, native circuits with their operands padded / truncated in place
+   to the circuit's inputs and every result value on its own fresh ids —
+   returns exactly the bits that evaluating the original step list with
+   separate storage for every value returns (ssa_eval: the reading of
    Program.Circuit as an evaluator, i.e. the whole-circuit result), including
    agreement on error returns.
-   wf_prog && outbits_ok is true on every generated program of every run;
-   consts_tabled fails only for the offset operand of index instructions
-   (which the index circuit does not read; no streamed value differs there —
-   those programs are covered by the oracle and the correspondence only).
+   wf_prog && outbits_ok and consts_read_tabled are evaluated on every generated
+   program of every run and are true on ALL of them (the programs with
+   native("add64.circ", ...) and the index instructions with their untabled
+   offset operand included).
    Proof: one induction along the gc'd list carrying the allocator's ownership
    invariant and "the bits on the wire ids of every value that is still an
    operand equal its reference bits" (StreamGcProof.v: step_sim, gcs_sim,
-   run_sim, init_sinv), using C05_stream_sim_circuit / _alias / _operand,
-   C05_gc_sound_static and C05_ssa_ignores_gc. *)
+   run_sim, init_sinv, circ_out_ids_inv), using C05_stream_sim_circuit / _alias /
+   _operand, C05_eval_ignores_unread_inputs, C05_gc_sound_static and
+   C05_ssa_ignores_gc.  Non-vacuity: circ_and_unread_nonvacuous (StreamGcProof.v). *)
 Theorem C05_stream_eq_whole :
   forall (p : sprog) (steps g : list instr) (xy : list bool),
-    wf_prog p steps = true -> consts_tabled p steps = true -> outbits_ok p steps = true ->
+    wf_prog p steps = true -> consts_read_tabled p steps = true -> outbits_ok p steps = true ->
     gc_fixed steps = Some g ->
     stream_eval p g xy = ssa_eval p steps xy.
 Proof. exact stream_eq_whole. Qed.
@@ -178,7 +206,7 @@ Print Assumptions C05_stream_eq_whole.
    hypothesis no_premature_reuse is not proved.) *)
 Theorem C05_stream_sim :
   forall (p : sprog) (steps g : list instr) (xy : list bool),
-    wf_prog p steps = true -> consts_tabled p steps = true -> outbits_ok p steps = true ->
+    wf_prog p steps = true -> consts_read_tabled p steps = true -> outbits_ok p steps = true ->
     gc_fixed steps = Some g ->
     no_premature_reuse p g = true /\ stream_eval p g xy = ssa_eval p g xy.
 Proof. exact stream_sim_gc. Qed.
